@@ -1148,6 +1148,77 @@ func (e *SpecEnv) evalCall(n *ast.CallExpr) *SV {
 			rv.Addr = &AddrInfo{Root: p.Elem(), Known: true}
 		}
 		return &SV{V: rv, St: e.cur}
+	case "forallobj":
+		// forallobj(x, "<struct type>", body): body holds for every object of that type that exists (x is a pointer to it)
+		id, ok := n.Args[0].(*ast.Ident)
+		if !ok || len(n.Args) != 3 {
+			e.fail("forallobj(x, type, body)")
+			return nil
+		}
+		ta := arg(1)
+		if ta == nil || !ta.V.L[0].IsLit() {
+			e.fail("forallobj: type must be a string literal")
+			return nil
+		}
+		t := e.g.eng.namedType(ta.V.L[0].S)
+		if t == nil {
+			e.fail("forallobj: unknown type %s", ta.V.L[0].S)
+			return nil
+		}
+		r := e.freshBound(id.Name)
+		ne := e.clone()
+		ne.vars[id.Name] = &SV{V: &Val{T: types.NewPointer(t), L: []*Term{r}, Addr: &AddrInfo{Root: t, Known: true}}}
+		body := ne.eval(n.Args[2])
+		if body == nil {
+			return nil
+		}
+		// quantified over every reference: the field maps of a struct type are
+		// only ever read at objects of that type, so facts about other
+		// references are vacuous junk; a function that allocates an object of
+		// this type cannot establish (or consistently assume) the clause
+		rng := Lt(Int(0), r)
+		if e.goal {
+			return svBool(Implies(rng, body.V.L[0]))
+		}
+		return svBool(Forall([]*Term{r}, Implies(rng, body.V.L[0])))
+	case "allfield":
+		// allfield("<struct type>", "<field>", "<ufb name>"): the uninterpreted predicate holds of that field of every object
+		if len(n.Args) != 3 {
+			e.fail("allfield(type, field, pred)")
+			return nil
+		}
+		ta, pa, ua := arg(0), arg(1), arg(2)
+		if ta == nil || pa == nil || ua == nil || !ta.V.L[0].IsLit() || !pa.V.L[0].IsLit() || !ua.V.L[0].IsLit() {
+			e.fail("allfield needs three string literals")
+			return nil
+		}
+		t := e.g.eng.namedType(ta.V.L[0].S)
+		if t == nil {
+			e.fail("allfield: unknown type %s", ta.V.L[0].S)
+			return nil
+		}
+		st0, _ := t.Underlying().(*types.Struct)
+		var ft types.Type
+		if st0 != nil {
+			for i := 0; i < st0.NumFields(); i++ {
+				if st0.Field(i).Name() == pa.V.L[0].S {
+					ft = st0.Field(i).Type()
+				}
+			}
+		}
+		if ft == nil || len(leavesOf(ft)) != 1 {
+			e.fail("allfield: field %s must be a scalar field", pa.V.L[0].S)
+			return nil
+		}
+		l := leavesOf(ft)[0]
+		a := &AddrInfo{Root: t, Path: pa.V.L[0].S, Known: true}
+		k := e.g.leafKeyL(a, l)
+		r := e.freshBound("obj")
+		body := App("spec."+ua.V.L[0].S, SBool, e.cur.heap.Get(k, l.Sort(), SInt).Read(r, nil))
+		if e.goal {
+			return svBool(body)
+		}
+		return svBool(Forall([]*Term{r}, body))
 	case "allunlocked":
 		// allunlocked("<struct type>", "<mutex field path>"): no object of that type has this mutex held
 		if len(n.Args) != 2 {
